@@ -651,6 +651,34 @@ pub fn run(args: &Args) {
         }}
     });
 
+    // (2f) a configured RTP port range that is exactly large enough (seed C10-g): both endpoints run on one host and share
+    // `rtp_start_port ..= rtp_end_port` = [P, P+2], i.e. two even ports for two endpoints with one transport each. They are
+    // compatibly configured, so they must connect (and carry a message / a sample). An endpoint that never probes the last
+    // port of its range gathers no host candidate. Implementation-side oracle only; up to 3 attempts on different ranges
+    // (another process may take a port between the probe and the bind).
+    rt.block_on(async {
+        for (name, mode, mix) in [("webrtc-data", Mode::WebRtc, Mix::Data), ("rtp-audio", Mode::Rtp, Mix::Audio)] {
+            let cfg = Cfg { mode, mix, bundle: 0, mux_require: true, ice: IceOpt::Full, latching: false, legacy: false, p_offers: true };
+            if !cfg.valid() { continue; }
+            let mut last = String::new(); let mut ok = false;
+            for attempt in 0..3u64 {
+                let Some(port) = free_even_udp_pair(rng.next() ^ attempt) else { last = "no free port pair found".into(); continue; };
+                let mut p = Pair::create(cfg, &Knobs { rtp_port_range: Some((port, port + 2)), ..Knobs::default() });
+                run.count("tight_port_range_pairs");
+                let r: Result<(), String> = async {
+                    p.negotiate().await?; p.wait_connected(T_CONNECT).await?;
+                    if mix.has_data() { p.accept_channel(Duration::from_secs(10)).await?; }
+                    for (i, m) in p.off.media.iter().enumerate() { rtp_roundtrip(m, &p.ans.pc, format!("verif-c10-range-{i}").as_bytes(), Duration::from_secs(3)).await?; }
+                    Ok(())
+                }.await;
+                p.off.pc.close(); p.ans.pc.close();
+                match r { Ok(()) => { ok = true; break; } Err(e) => last = format!("range {port}..={}: {e}", port + 2) }
+            }
+            if ok { run.count("tight_port_range_connected"); }
+            if !ok { run.fail(&format!("cfgrange:{name}:two-endpoints-sharing-a-two-port-range-do-not-connect"), &format!("portrange {name}"), &last); }
+        }
+    });
+
     // (3) pure helpers through hooks
     {
         let ip: std::net::IpAddr = "10.0.0.1".parse().unwrap();
